@@ -19,7 +19,7 @@ META = {
             "reported. All preemption-bounded schedules of 1..3 notifiers against a draining listener (bit set and "
             "counting bit set) and free-running runs over semaphore, unix-datagram-socket and socket-pair triggers are "
             "validated by TLC against EventObs.tla (NoPhantom, NoLost, NoSleep).",
-    "note": "Trusted: TLC, drop-in atomics, SC replay on x86, preemption bound. Real back-ends: delivery and phantom "
+    "note": "A TLC refutation whose directed replay deviates from the code (the model's fixed step lists cannot express a conditional step) starts a search of schedules of the counterexample's program and two canonical programs on the real code, judged by EventObsTrace (V1). Trusted: TLC, drop-in atomics, SC replay on x86, preemption bound. Real back-ends: delivery and phantom "
             "clauses only (a sleeping real blocking wait cannot be told from a slow one without wall-clock verdicts). "
             "NoSleep is decided in its 'for ever' form (see EventProtocol.tla); orderings weaker than SeqCst on the "
             "protocol state would need store-reordering semantics that C11Mem does not have.",
